@@ -85,3 +85,21 @@ Theorem gen_streams_eq : forall ds sq mask max_len, wf ds -> topo ds sq ->
   gen_streams ds sq mask max_len = Some (streams ds sq mask max_len).
 Proof. exact GenSegStreamsEq.gen_streams_eq. Qed.
 Print Assumptions gen_streams_eq.
+
+(* subgrid.segment_indices (behind FlwdirRaster.streams(idxs_out=...)) regenerated from the source IS the model below: the walk
+   from every outlet pixel to the next one, DIVIDED with the same `cut` as streams.streams (repaired: it used to stop after
+   max_len cells and drop the remaining links); dividing loses and duplicates no link: for every max_len the links of all
+   pieces, in order, are those of the undivided segments *)
+From PF Require Import GenSegIndicesEq SegIndicesSpec.
+Theorem gen_segment_indices_partial : forall nxt outs mask max_len r,
+  gen_segment_indices outs nxt mask max_len = Some r -> r = segment_indices_model nxt outs mask max_len.
+Proof. exact GenSegIndicesEq.gen_segment_indices_partial. Qed.
+Print Assumptions gen_segment_indices_partial.
+Theorem gen_segment_indices_topo : forall nxt outs mask max_len sq, topo nxt sq -> complete nxt sq ->
+  gen_segment_indices outs nxt mask max_len = Some (segment_indices_model nxt outs mask max_len).
+Proof. exact GenSegIndicesEq.gen_segment_indices_topo. Qed.
+Print Assumptions gen_segment_indices_topo.
+Theorem segment_indices_links_maxlen : forall nxt outs mask max_len,
+  links (segment_indices_model nxt outs mask max_len) = links (segment_indices_model nxt outs mask 0).
+Proof. exact SegIndicesSpec.segment_indices_links_maxlen. Qed.
+Print Assumptions segment_indices_links_maxlen.
